@@ -50,7 +50,8 @@ EXPECTED_PROBES = ["multi_chunk_array_written", "zero_dim_array", "empty_array_o
                    "kind_tensor", "kind_module", "kind_obj_in_container", "kind_npscalar",
                    "kind_hybrid_module", "dot_prefixed_name", "kind_qvector", "kind_qdataset",
                    "one_object_under_two_names", "unusual_path_shape", "other_interpreter_restart",
-                   "tensor_view_big_leaf", "tensor_view_big_nonleaf", "tensor_transposed", "bulk_str", "bulk_dict",
+                   "tensor_view_big_leaf", "tensor_view_big_nonleaf", "tensor_transposed",
+                   "same_object_saved_twice", "compression_level_numpy_int", "bulk_str", "bulk_dict",
                    "bulk_intlist", "bulk_attrs"]
 
 
@@ -104,6 +105,9 @@ def gen(rng: Rng, tier, i):
         cfgs.append({**t, "mode": mode, "pre": pre, "level": r.pick([None] + list(range(10))),
                      "path_kind": r.pick(["str", "Path", "str", "Path", "rel", "relPath"])})
     return {"graph": g, "cfgs": cfgs, "env": serio.gen_env(rng.fork("env")), "alias": alias,
+            # the SAME python object saved to both stores (save must not change its argument), and the
+            # compression level given as a NumPy integer
+            "reuse_object": x.chance(0.25), "level_as_numpy": x.chance(0.15),
             "other_process": rng.chance(0.08) and alias is None,
             # load in a FRESH interpreter with another string-hash salt (a real restart: nothing the
             # saving process computed - hash orders, caches, interned objects - survives)
@@ -196,6 +200,7 @@ def run(plan):
     if plan.get("other_process"):
         helper = _ForkedLoader(plan["env"])  # forked now: has never seen the object graph
     loaded = {}
+    shared_obj = [None]
     try:
         with serio.SerEnv(plan["env"], keep_log=False) as E:
             n_sig = 0
@@ -209,9 +214,20 @@ def run(plan):
                 _setup_pre(E, cfg, tgt, res["probes"])
                 if cfg["store"] == "zip" and not cfg["name"].endswith(".zip"):
                     bump(res["probes"], "auto_store_suffix_appended")
-                obj = _build(plan)
+                if plan.get("reuse_object"):
+                    if shared_obj[0] is None:
+                        shared_obj[0] = _build(plan)
+                    else:
+                        bump(res["probes"], "same_object_saved_twice")
+                    obj = shared_obj[0]
+                else:
+                    obj = _build(plan)
+                lvl = cfg["level"]
+                if plan.get("level_as_numpy") and lvl is not None:
+                    lvl = np.int64(lvl)
+                    bump(res["probes"], "compression_level_numpy_int")
                 _, exc, sc = E.save(obj, E.path(cfg["name"], cfg["path_kind"]), mode=cfg["mode"],
-                                    store=cfg["store"], compression_level=cfg["level"])
+                                    store=cfg["store"], compression_level=lvl)
                 del obj
                 if _multi_chunk(E):
                     bump(res["probes"], "multi_chunk_array_written")
